@@ -11,6 +11,9 @@ theorem ParserAlignedBlock_eq_sound (a b : Block) (h : Block.eq a b = true) : (B
   repeat' split
   all_goals simp_all
 
+example : Block.eq { Block.fresh with error := true, errorcode := 63, payload := [1, 2, 3, 4], quadbytes := 3 }
+    { Block.fresh with error := true, errorcode := 63, payload := [1, 2, 3, 4], quadbytes := 3 } = true := by decide
+
 /-- the object decoded from a's encoding compares equal to a as `pack` left it -/
 theorem ParserAlignedBlock_eq_decode (a t : Block) (rest : Bytes) (h : Block_WF a) :
     ∃ b, (Block.pack a).2 = .ok b ∧ (∃ n, (Block.unpack t (b ++ rest)).2 = .ok n) ∧
@@ -18,6 +21,9 @@ theorem ParserAlignedBlock_eq_decode (a t : Block) (rest : Bytes) (h : Block_WF 
   refine ⟨blockBytes a, by rw [Block_pack_eq a h], ⟨_, by rw [Block_unpack_eq a t rest h]⟩, ?_⟩
   rw [Block_pack_eq a h, Block_unpack_eq a t rest h]
   simp [Block.eq]
+
+example : Block_WF { Block.fresh with error := true, errorcode := 63, payload := [1, 2, 3, 4] } := by
+  simp [Block_WF, Block.fresh, PAB_DEFAULT_BUSID, PAB_DEFAULT_ELAPSEDTIME]
 
 /-- the bytes a list of blocks packs to depend only on what each block packs to -/
 theorem packBlocks_snd_congr (as bs : List Block) (h : blocksEq as bs = true) :
@@ -58,6 +64,10 @@ theorem ParserAlignedPacket_eq_sound (a b : Packet) (h : Packet.eq a b = true) :
   simp only [Packet.pack]
   exact (packBlocks_snd_congr _ _ h).symm
 
+/-- non-vacuity: two packets that differ in the (uncompared, unencoded) `numberofblocks` compare equal -/
+example : Packet.eq { Packet.fresh with parserblocks := [{ Block.fresh with payload := [1, 2, 3, 4] }] }
+    { Packet.fresh with parserblocks := [{ Block.fresh with payload := [1, 2, 3, 4] }], numberofblocks := 7 } = true := by decide
+
 theorem blocksEq_refl (bs : List Block) : blocksEq bs bs = true := by
   induction bs with
   | nil => rfl
@@ -70,5 +80,10 @@ theorem ParserAlignedPacket_eq_decode (a t : Packet) (h : C01.Packet_WF a) :
   refine ⟨b, hp, by rw [hu], ?_⟩
   rw [hu]
   simp only [Packet.pack, packBlocks_eq _ h, Packet.eq, blocksEq_refl]
+
+example : C01.Packet_WF { Packet.fresh with parserblocks := [{ Block.fresh with payload := [1, 2, 3, 4] }, Block.fresh] } := by
+  intro b hb
+  simp only [List.mem_cons, List.mem_nil_iff, or_false] at hb
+  rcases hb with rfl | rfl <;> simp [Block_WF, Block.fresh, PAB_DEFAULT_BUSID, PAB_DEFAULT_ELAPSEDTIME]
 
 end Acra.Props.C14
